@@ -315,6 +315,26 @@ pub fn run(cx: &mut Ctx) {
             req_case(cx, &[format!("addraw 6 {}", hex(&v2)), "getobs".into()]);
         }
     }
+    // Observe values of 3 and 4 bytes whose low 16 bits look like an action (a narrowing
+    // cast would alias them to Register/Deregister), and all short strings over {0,1,2,255}
+    for hi in [1u8, 2, 0x80, 0xab, 0xff] {
+        for lo in [0u8, 1, 2] {
+            for v in [vec![hi, 0, lo], vec![hi, 0, 0, lo], vec![0, hi, 0, lo], vec![hi, 1, 0, lo]] {
+                req_case(cx, &[format!("addraw 6 {}", hex(&v)), "getobs".into(), "raw 6".into()]);
+            }
+        }
+    }
+    let small = [0u8, 1, 2, 255];
+    for a in small {
+        for b in small {
+            for c in small {
+                req_case(cx, &[format!("addraw 6 {}", hex(&[a, b, c])), "getobs".into()]);
+                for d in small {
+                    req_case(cx, &[format!("addraw 6 {}", hex(&[a, b, c, d])), "getobs".into()]);
+                }
+            }
+        }
+    }
     // paths: exhaustive over {'/', 'a', '.', two-byte char} to length 6 (5 quick), whatever was there before
     let alpha = ["/", "a", ".", "\u{e9}"];
     let maxlen = if thorough { 6 } else { 5 };
